@@ -263,7 +263,7 @@ CHECK = Check(
     rule=('Hypothesis-generated models (1-3 parameters with uniform/normal/discrete/hierarchical priors in arbitrary name order, scalar/'
           'vector simulator output, float or tie-producing integer outputs, custom discrepancy with a rule mapping part of the range to '
           'inf or a scipy Distance node) x n_samples 1..20 x batch_size 1..12 x objective (n_sim in [n_samples,200] | quantile in '
-          '[0.05,1] | threshold = 5..80 % pilot percentile) x max_parallel_batches 1..4 x seed x an optional earlier run on the same sampler object (same objective, a larger n_sim budget, or ANOTHER kind of objective: threshold / quantile). Non-trivial = at least 2 batches '
+          '[0.05,1] | threshold = 5..80 % pilot percentile) x max_parallel_batches 1..4 x seed x an optional earlier run on the same sampler object (same objective, a larger n_sim budget, or ANOTHER kind of objective: threshold / quantile; the earlier result must stay as it was), custom discrepancies in units of 1e-9 / 1 / 1e9, adaptive part: summaries optionally named in output_names in non-parent order. Non-trivial = at least 2 batches '
           'consumed and more draws than n_samples (something was rejected); distinct by hash of the case.'),
     parts=[Part('rejection', run_case, strategy=strat, examples={'quick': 800, 'thorough': 32000}),
            Part('adaptive-distance', run_adaptive, strategy=strat_adaptive, examples={'quick': 200, 'thorough': 8000})],
